@@ -366,7 +366,8 @@ def run(ctx):
         if i < 1:
             ctx.sample("random-op-sequence", case)
     for i in range(ctx.scale(3000, 400_000)):
-        s = "".join(rng.choice(SPECIAL + ["b", "c", "é", "x", "Set-Cookie: a=b", "; Secure", "; Domain=evil"]) for _ in range(rng.randrange(1, 12)))
+        s = "".join(rng.choice(SPECIAL + ["b", "c", "é", "x", "Set-Cookie: a=b", "; Secure", "; Domain=evil", "\uff1b Domain\uff1devil.example", "\uff02", "\uff0c", "\u2028", "%41", "%0D%0A", "%"])
+                    for _ in range(rng.randrange(1, 12)))  # also compatibility look-alikes of ';' '=' '"' ',' and ready-made percent triplets
         kw = {"max_age": rng.choice([-1, 0, 5]), "httponly": rng.random() < 0.3, "samesite": rng.choice(["lax", "strict", "none"])}
         if rng.random() < 0.5:
             check_cookie(ctx, "k", s, kw, "value")
